@@ -521,6 +521,16 @@ def rule_purity(repo: Repo, rep: Report) -> int:
 
 
 def run(repo: Repo, rep: Report, tier: str) -> None:
+    if tier == "thorough":
+        fi_ = repo.func(DG, "BinarySymmetricChannel.forward")
+        before_ = len(rep.obligations)
+        if bsc_evaluated(rep, fi_) is None:
+            del rep.obligations[before_:]
+        for cname_, param_ in (("BinarySymmetricChannel", "crossover_prob"), ("BinaryErasureChannel", "erasure_prob"), ("BinaryZChannel", "error_prob")):
+            init_ = repo.func(DG, f"{cname_}.__init__")
+            st_, d_ = params_evaluated(init_, param_)
+            if st_ is not None:
+                rep.add("PARAM", init_, f"{cname_} constructor evaluated on -0.1, 0, 0.3, 1, 1.1 (thorough tier)", st_, d_, node=init_.node)
     n = rule_bsc(repo, rep)
     n += rule_bec(repo, rep)
     n += rule_z(repo, rep)
